@@ -21,10 +21,10 @@ from hvmc import alphabets as A
 from hvmc.engine import explorer
 from hvmc.engine.core import close
 from hvmc.ref import stats as RS
-from hvmc.checks.c05 import make_records, _call, _nonan, _same, ACCESSORS
+from hvmc.checks.c05 import make_records, _call, _nonan, _same, _reuse_dict, ACCESSORS
 
 PROPERTY = "C11"
-DISTS = ("lognormal", "normal")
+DISTS = ("lognormal", "normal", "log-normal")      # the third is the registered alias spelling
 RTOL = 1e-9
 AZ_VALUES = [0.0, 60.0, 120.0]
 
@@ -46,8 +46,13 @@ class System:
         self.root = root
         F = root["F"]
         self.freq = A.GRIDS[root["grid"]](F)
-        self.csets = [A.curve_set(s, F, scale_step=0.125 + 0.0625 * ai)
+        # ``near``: very repeatable windows, scaled by 1 + w * step with steps of 1.9 and 2.9 ppm: the spread is a
+        # small difference of large numbers, the reference is compared at a tolerance that allows for that
+        # conditioning (mean/std ~ 1e6)
+        near = root.get("near")
+        self.csets = [A.curve_set(s, F, scale_step=(2.0 ** -19 + ai * 2.0 ** -20) if near else 0.125 + 0.0625 * ai)
                       for ai, s in enumerate(root["shapes_by_az"])]
+        self.rtol = 1e-6 if near else RTOL
         self.nA = len(self.csets)
         self.W = len(self.csets[0])
         f = self.freq
@@ -94,6 +99,24 @@ class System:
 
     def apply(self, h, op):
         o = h.obj
+        manual = op["op"] in ("M", "A", "X")
+        before = [(np.array(t.valid_window_boolean_mask, dtype=bool), np.array(t.valid_peak_boolean_mask, dtype=bool))
+                  for t in o.hvsrs] if manual else None
+        out = self._apply(h, op)
+        if manual:
+            # model of a manual edit: exactly the addressed entries change, on the addressed azimuth only
+            touched = {(op["az"], op["i"])} | ({(op["az2"], op["j"])} if op["op"] == "X" else set())
+            for ai, (t, (vw0, vp0)) in enumerate(zip(o.hvsrs, before)):
+                for name, m0 in (("valid_window_boolean_mask", vw0), ("valid_peak_boolean_mask", vp0)):
+                    m1 = np.asarray(getattr(t, name), dtype=bool)
+                    other = [i for i in range(self.W) if (ai, i) not in touched and bool(m0[i]) != bool(m1[i])]
+                    if other:
+                        h.bad = dict(op=op, azimuth=ai, mask=name, entries_changed=other,
+                                     before=m0.tolist(), after=m1.tolist())
+        return out
+
+    def _apply(self, h, op):
+        o = h.obj
         try:
             if op["op"] == "M":
                 t = o.hvsrs[op["az"]]
@@ -112,7 +135,11 @@ class System:
                     t.valid_window_boolean_mask[op["i"]] = True
                     t.valid_peak_boolean_mask[op["i"]] = True
             elif op["op"] == "U":
-                o.update_peaks_bounded(search_range_in_hz=tuple(op["rng"]), find_peaks_kwargs=op.get("kw"))
+                kw = None if op.get("kw") is None else dict(op["kw"])
+                try:
+                    o.update_peaks_bounded(search_range_in_hz=tuple(op["rng"]), find_peaks_kwargs=kw)
+                finally:
+                    _reuse_dict(kw)
                 h.rng, h.kw = tuple(op["rng"]), op.get("kw")
             elif op["op"] == "F":
                 h.rng, h.kw = tuple(op["rng"]), None
@@ -155,6 +182,11 @@ class System:
     # ---- invariant ---------------------------------------------------------
     def invariant(self, h, hist, ctx, root):
         o = h.obj
+        if getattr(h, "bad", None):
+            ctx.violation("C11:manual-edit-changes-other-window-or-azimuth", root,
+                          detail=dict(hist=list(hist), **h.bad),
+                          explanation="rejecting / re-accepting one window on one azimuth by hand changed the "
+                                      "accept state of another window or azimuth (the azimuths share storage)")
         masks = self._masks(o)
         peaks = self._peaks(h)
         inside = True
@@ -194,7 +226,7 @@ class System:
             exp = {}
             exp["mean_fn_frequency"] = RS.wmean(fs, weights, d)
             exp["mean_fn_amplitude"] = RS.wmean(am, weights, d)
-            curves_defined = not (d == "lognormal" and zero_in_accepted)    # log(0): outside the estimator's domain
+            curves_defined = not (d != "normal" and zero_in_accepted)    # log(0): outside the estimator's domain
             if not curves_defined:
                 ctx.count("lognormal_curves_skipped_zero_amplitude_accepted")
             if curves_defined:
@@ -225,7 +257,7 @@ class System:
                                   expected=exp[label], observed=got,
                                   explanation=f"{label}({d!r}) raised inside the quantifier")
                     continue
-                if not close(got, exp[label], rtol=RTOL, atol=1e-12):
+                if not close(got, exp[label], rtol=self.rtol, atol=1e-12):
                     ctx.violation(f"C11:{name}:{d}:{cls}:cheng-weights", root,
                                   detail=dict(hist=list(hist), accessor=label, distribution=d, masks=masks),
                                   expected=exp[label], observed=got,
@@ -248,7 +280,7 @@ class System:
             per_az = []
             for (vw, vp), pk in zip(masks, peaks):
                 per_az.append(RS.mean([pk[i][0] for i in range(self.W) if vw[i]], d))
-            avg = (math.exp(math.fsum(math.log(v) for v in per_az) / self.nA) if d == "lognormal"
+            avg = (math.exp(math.fsum(math.log(v) for v in per_az) / self.nA) if d != "normal"
                    else math.fsum(per_az) / self.nA)
             g = got_all.get("mean_fn_frequency")
             if g is not None and not _israised(g) and not close(g, avg, rtol=RTOL):
@@ -258,8 +290,8 @@ class System:
             # covariance diagonal == std^2
             if spread_defined and not _israised(got_all.get("cov_fn")) and not _israised(got_all.get("std_fn_frequency")):
                 cv = got_all["cov_fn"]
-                if not (close(cv[0][0], got_all["std_fn_frequency"] ** 2, rtol=RTOL, atol=1e-14) and
-                        close(cv[1][1], got_all["std_fn_amplitude"] ** 2, rtol=RTOL, atol=1e-14)):
+                if not (close(cv[0][0], got_all["std_fn_frequency"] ** 2, rtol=self.rtol, atol=1e-14) and
+                        close(cv[1][1], got_all["std_fn_amplitude"] ** 2, rtol=self.rtol, atol=1e-20)):
                     ctx.violation(f"C11:cov_fn:{d}:diagonal-vs-std", root, detail=dict(hist=list(hist), masks=masks),
                                   expected=[got_all["std_fn_frequency"] ** 2, got_all["std_fn_amplitude"] ** 2],
                                   observed=[cv[0][0], cv[1][1]],
@@ -273,7 +305,7 @@ class System:
                     g = got_all.get(k2)
                     if g is None or _israised(g):
                         continue
-                    if not close(g, v2, rtol=RTOL, atol=1e-12):
+                    if not close(g, v2, rtol=self.rtol, atol=1e-12):
                         ctx.violation(f"C11:{k2}:{d}:equal-counts-vs-pooled", root,
                                       detail=dict(hist=list(hist), masks=masks), expected=v2, observed=g,
                                       explanation="with equally many accepted windows per azimuth the statistic "
@@ -331,6 +363,8 @@ def roots(tier, seed):
     # not influence anything (0 * log 0 must never enter a lognormal statistic)
     out.append(dict(grid="lin", F=7, shapes_by_az=[["p3", "dead", "p4"], ["p2", "p3", "dead"]],
                     depth=2 if tier == "quick" else 3, ops_subset="MA", reaccept=True))
+    out.append(dict(grid="lin", F=7, shapes_by_az=[["p3"] * 3, ["p3"] * 3], depth=1, near=True))
+    out.append(dict(grid="geo", F=7, shapes_by_az=[["twopk"] * 4, ["twopk"] * 4, ["twopk"] * 4], depth=1, near=True))
     if tier == "quick":
         out.append(dict(grid="lin", F=7, shapes_by_az=[S[2][0], S[2][1]], depth=3, touch=True, reaccept=True,
                         ops_subset="MA"))
@@ -378,7 +412,7 @@ def describe(tier):
              "histories of {manual rejection of each (azimuth, window), 4 range updates, 6 frequency-domain "
              "rejections, every maximum-value rejection mask} up to the root's depth; states deduplicated on "
              "(per-azimuth masks, range, peaks); judged in every state in which every azimuth has an accepted window "
-             "and every accepted window has a peak; non-trivial/distinct = (grid, shapes per azimuth)",
+             "and every accepted window has a peak; non-trivial/distinct = (grid, shapes per azimuth); two 'near' roots hold ppm-scaled copies of one shape (rtol 1e-6); the distributions include the alias spelling 'log-normal'; returned arrays are overwritten in place and options dicts re-used by the harness; a manual edit may change only the addressed entry of the addressed azimuth",
         bounds=dict(depth="2 quick (1 for 3 azimuths x 4 windows); 3 thorough for <=3 windows and <=2 azimuths, else 2"),
         exhaustive=True,
         assumptions=["per-window peaks are taken from fresh HvsrCurve objects (judged by C08)",
